@@ -188,12 +188,19 @@ EndTok ==
 Fresh == /\ pos' = 1 /\ sec' = "start" /\ sense' = "" /\ obj' = <<>> /\ objc' = Zero /\ rows' = <<>> /\ cur' = NoCur
          /\ bnd' = [lo |-> <<>>, hi |-> <<>>] /\ frees' = {} /\ bins' = {} /\ gens' = {} /\ bq' = <<>> /\ bad' = FALSE
          /\ pbs' = [set |-> {}, nrows |-> 0]
+\* a model variable called like a word of the LP format (the names are copied verbatim into the text): the
+\* reader takes it for the keyword.  Such an event is reported under its own reason (a known finding).
+LPWords == {"st", "ST", "St", "end", "End", "END", "bin", "Bin", "BIN", "binary", "Binary", "binaries", "Binaries", "gen", "Gen", "general", "General",
+            "generals", "Generals", "free", "Free", "FREE", "inf", "Inf", "infinity", "Infinity", "bounds", "Bounds", "bound", "Bound", "subject", "Subject",
+            "to", "To", "such", "that", "min", "Min", "max", "Max", "minimize", "Minimize", "maximize", "Maximize", "minimum", "maximum"}
+KeywordName == \E i \in 1..NVars : VName(i) \in LPWords
+Why(w) == IF KeywordName THEN "KNOWN-KEYWORD-NAME a variable is called like a word of the LP format and is read as that word" ELSE w
 NextEvent == /\ l <= Len(Rec)
              /\ IF sec = "end" THEN
                    (IF pbs.set = {} THEN PrintT(<<"STAT", Ev.id, Len(Toks), pbs.nrows>>)
-                    ELSE PrintT(<<"REJECT", "C17", Ev.id, CHOOSE p \in pbs.set : TRUE, ToJson(pbs.set)>>))
+                    ELSE PrintT(<<"REJECT", "C17", Ev.id, Why(CHOOSE p \in pbs.set : TRUE), ToJson(pbs.set)>>))
                 ELSE IF Ev.out # "ok" THEN PrintT(<<"REJECT", "C17", Ev.id, "export failed: " \o Ev.out, "">>)
-                ELSE PrintT(<<"REJECT", "C17", Ev.id, "text is not LP format (no End, or unexpected token)",
+                ELSE PrintT(<<"REJECT", "C17", Ev.id, Why("text is not LP format (no End, or unexpected token)"),
                               IF pos <= Len(Toks) THEN Tok.s ELSE "">>)
              /\ (l = Len(Rec) => PrintT(<<"ACCEPTED", Len(Rec) - Start + 1>>))
              /\ l' = l + 1 /\ Fresh
